@@ -88,6 +88,9 @@ CheckReport ==
                     \cup {"C16.ReadBack game=" \o S.names[i] :
                              i \in {i \in DOMAIN S.names : S.readback.keys = S.names
                                                            /\ S.readback.digests[i] # S.written[i]}})
+         \cup (IF S.readback.error # "" THEN {}
+               ELSE (IF S.readback.keys2 = S.names /\ S.readback.digests2 = S.written THEN {}
+                     ELSE {"C16.ReadBack second read after the batch run"}))
          \cup (IF S.out.crashed THEN {}
                ELSE (IF S.cli.rc = 0 THEN {} ELSE {"C16.Cli exit"})
                     \cup (IF S.cli.files = <<ReportName(S.file)>> THEN {} ELSE {"C16.Cli FileName"})
